@@ -147,7 +147,9 @@ Record facts := {
   f_tl_convert : bool;             (* typedlist._convert applies the element type to every element ... *)
   f_tl_falsy_empty : bool;         (* typedlist.__init__: `if not values: values = []` *)
   f_dt_arg_utc : bool;             (* datetime.__new__: `tzinfo = arg.tzinfo or UTC` *)
-  f_dt_final_utc : bool            (* datetime.__new__: `if obj.tzinfo is None: obj = obj.replace(tzinfo=UTC)` *)
+  f_dt_final_utc : bool;           (* datetime.__new__: `if obj.tzinfo is None: obj = obj.replace(tzinfo=UTC)` *)
+  f_grouped_delegates : bool       (* GroupedRecord.__setattr__ hands a member's field to setattr(member, attr, val),
+                                      i.e. to Record.__setattr__; false: it stores with object.__setattr__ *)
 }.
 
 Record env := {
@@ -525,14 +527,39 @@ Definition coerce_cross (t : ftype) (orig low : pv) : result sval :=
   | _ => coerce_flat t low
   end.
 
-(* <class of t>(v) as Record.__setattr__ / typedlist._convert apply it: an instance of the class is kept *)
+Definition is_nil {A} (l : list A) : bool := match l with [] => true | _ => false end.
+
+(* <class of t>(v) as Record.__setattr__ / typedlist._convert apply it: an instance of the class is kept.
+   A list object of ANOTHER flow.record list type (a T'[] list, a stringlist, a dictlist -- e.g. the value of
+   another record's list field) handed to a T[] slot is iterated like any other sequence: its elements are
+   instances of T' (resp. raw values) and each goes through the element rule. *)
 Fixpoint coerce (t : ftype) (v : pv) {struct v} : result sval :=
   match v with
   | PTyped c p =>
       if instance_of c t || ftype_eqb t TDynamic then coerce c p
       else match coerce c p with
            | Raise e => Raise e
-           | Ok s0 => match lower s0 with Some low => coerce_cross t v low | None => Raise ETypeError end
+           | Ok s0 =>
+               match t, c, p with
+               | TList e, TList e', (PList l | PTuple l) =>
+                   if f_tl_falsy_empty F && is_nil l then Ok (SList []) else
+                   bind (map_res (fun x =>
+                           if f_tl_convert F then
+                             (if instance_of e' e || ftype_eqb e TDynamic then coerce e' x
+                              else match coerce e' x with
+                                   | Raise e1 => Raise e1
+                                   | Ok s1 => match lower s1 with
+                                              | Some low => coerce_cross e (PTyped e' x) low
+                                              | None => Raise ETypeError
+                                              end
+                                   end)
+                           else Ok (SPass (PTyped e' x))) l) (fun ss => Ok (SList ss))
+               | TList e, (TStringlist | TDictlist), (PList l | PTuple l) =>
+                   if f_tl_falsy_empty F && is_nil l then Ok (SList []) else
+                   bind (map_res (fun x => if f_tl_convert F then coerce e x else Ok (SPass x)) l)
+                        (fun ss => Ok (SList ss))
+               | _, _, _ => match lower s0 with Some low => coerce_cross t v low | None => Raise ETypeError end
+               end
            end
   | _ =>
     match t with
@@ -627,8 +654,17 @@ Definition replace (kw : bool) (r : record) (kvs : list (nat * pv)) : result rec
   | Ok r' => if forallb (fun kv => Nat.ltb (fst kv) (List.length r)) kvs then Ok r' else Raise EValueError
   end.
 
+(* assignment through a GroupedRecord view when the view does NOT delegate to the member's own setter *)
+Fixpoint setattr_raw (r : record) (i : nat) (v : pv) : record * outcome :=
+  match r, i with
+  | [], _ => ([], Accepted)
+  | (t, s) :: r', O => ((t, if is_none v then SNone else SPass v) :: r', Accepted)
+  | sl :: r', S i' => let (r'', o) := setattr_raw r' i' v in (sl :: r'', o)
+  end.
+
 Inductive op :=
 | OSet (i : nat) (v : pv)
+| OSetGrouped (i : nat) (v : pv)             (* GroupedRecord(..., [r, ...]).<i-th slot name> = v *)
 | OConstruct (args : list pv)                (* build a new record of the same descriptor; replaces the current one *)
 | OReplace (kvs : list (nat * pv)).          (* r = r._replace(...) *)
 
@@ -637,6 +673,7 @@ Definition types (r : record) : list ftype := map fst r.
 Definition step (kw : bool) (r : record) (o : op) : record * outcome :=
   match o with
   | OSet i v => setattr r i v
+  | OSetGrouped i v => if f_grouped_delegates F then setattr r i v else setattr_raw r i v
   | OConstruct args => match construct kw (types r) args with Ok r' => (r', Accepted) | Raise e => (r, Raised e) end
   | OReplace kvs => match replace kw r kvs with Ok r' => (r', Accepted) | Raise e => (r, Raised e) end
   end.
@@ -696,11 +733,19 @@ Definition slot_ok (sl : slot) : bool :=
 
 Definition well_typed (r : record) : bool := forallb slot_ok r.
 
+Definition no_record (t : ftype) : bool :=
+  match t with TRecord | TList TRecord => false | _ => true end.
+
 (* the property's quantifier for the pass-through type `record`: the candidates are records (None is handled
    by setattr / the constructor); for every other type ALL values pass *)
 Fixpoint cand_ok (t : ftype) (v : pv) {struct v} : bool :=
   match v with
-  | PTyped c p => cand_ok c p && negb (ftype_eqb c TRecord) && negb (ftype_eqb t TRecord)
+  | PTyped c p =>
+      cand_ok c p && no_record c && no_record t
+      && match t, c, p with
+         | TList e, (TStringlist | TDictlist), (PList l | PTuple l) => forallb (cand_ok e) l
+         | _, _, _ => true
+         end
   | _ =>
     match t with
     | TRecord => is_record v
